@@ -129,6 +129,18 @@ static DEADLINE_MS: AtomicU64 = AtomicU64::new(u64::MAX);
 static CURRENT: AtomicU64 = AtomicU64::new(0);
 
 fn start_watchdog() -> std::time::Instant {
+    // One line per panic and no backtrace: symbolising a backtrace of this binary takes seconds,
+    // and the runtime prints one for every non-unwinding panic.
+    std::panic::set_hook(Box::new(|info| {
+        let msg = info
+            .payload()
+            .downcast_ref::<String>()
+            .cloned()
+            .or_else(|| info.payload().downcast_ref::<&str>().map(|s| s.to_string()))
+            .unwrap_or_default();
+        let loc = info.location().map(|l| format!("{}:{}:{}", l.file(), l.line(), l.column())).unwrap_or_default();
+        eprintln!("C06PANIC {} :: {}", loc, one_line(&msg));
+    }));
     let t0 = std::time::Instant::now();
     std::thread::spawn(move || {
         loop {
@@ -186,84 +198,84 @@ struct Outcome {
     detail: String,
 }
 
-fn run_isolated(jobfile: &std::path::Path, n: usize, prelude: bool, workers: usize, mode: &str) -> Vec<Outcome> {
+fn run_isolated(jobfile: &std::path::Path, n: usize, prelude: bool, workers: usize, mode: &str, batch: usize) -> Vec<Outcome> {
     let exe = std::env::current_exe().expect("current_exe");
-    let chunk = (n + workers - 1) / workers.max(1);
+    let next_batch = std::sync::Arc::new(std::sync::atomic::AtomicUsize::new(0));
     let mut handles = vec![];
-    for w in 0..workers {
-        let lo = w * chunk;
-        let hi = ((w + 1) * chunk).min(n);
-        if lo >= hi {
-            continue;
-        }
+    for _ in 0..workers.max(1) {
         let exe = exe.clone();
         let jobfile = jobfile.to_path_buf();
         let mode = mode.to_string();
+        let next_batch = next_batch.clone();
         handles.push(std::thread::spawn(move || {
             let mut res: Vec<(usize, Outcome)> = vec![];
-            let mut start = lo;
-            let batch = 400;
-            while start < hi {
-                let stop = (start + batch).min(hi);
-                let o = std::process::Command::new(&exe)
-                    .arg(&mode)
-                    .arg(&jobfile)
-                    .arg(start.to_string())
-                    .arg(stop.to_string())
-                    .arg(if prelude { "1" } else { "0" })
-                    .env("RUST_BACKTRACE", "0")
-                    .output()
-                    .expect("spawn child");
-                let stdout = String::from_utf8_lossy(&o.stdout).to_string();
-                let stderr = String::from_utf8_lossy(&o.stderr).to_string();
-                let mut begun: Option<usize> = None;
-                let mut hung = false;
-                let mut next = start;
-                for line in stdout.lines() {
-                    if let Some(x) = line.strip_prefix("B ") {
-                        begun = x.trim().parse().ok();
-                    } else if let Some(x) = line.strip_prefix("R ") {
-                        let (idx, rest) = x.split_once(' ').unwrap_or((x, ""));
-                        let idx: usize = idx.parse().unwrap_or(usize::MAX);
-                        let (r, d) = rest.split_once('\t').unwrap_or((rest, ""));
-                        res.push((idx, Outcome { result: r.to_string(), detail: d.to_string() }));
-                        begun = None;
-                        next = idx + 1;
-                    } else if line.starts_with("H ") {
-                        hung = true;
-                    }
+            loop {
+                let lo = next_batch.fetch_add(batch, Ordering::SeqCst);
+                if lo >= n {
+                    break;
                 }
-                if let Some(i) = begun {
-                    // the child died (or was stopped by its watchdog) inside call i
-                    use std::os::unix::process::ExitStatusExt;
-                    let how = if hung {
-                        "hang".to_string()
-                    } else if let Some(sig) = o.status.signal() {
-                        if sig == 6 { "abort".to_string() } else { format!("signal{}", sig) }
-                    } else {
-                        format!("exit{}", o.status.code().unwrap_or(-1))
-                    };
-                    // the panic message the runtime printed before aborting
-                    let mut msg = String::new();
-                    let lines: Vec<&str> = stderr.lines().collect();
-                    for (k, l) in lines.iter().enumerate() {
-                        if l.contains("panicked at") {
-                            msg = format!("{} {}", l.trim(), lines.get(k + 1).unwrap_or(&"").trim());
+                let hi = (lo + batch).min(n);
+                let mut start = lo;
+                while start < hi {
+                    let stop = hi;
+                    let o = std::process::Command::new(&exe)
+                        .arg(&mode)
+                        .arg(&jobfile)
+                        .arg(start.to_string())
+                        .arg(stop.to_string())
+                        .arg(if prelude { "1" } else { "0" })
+                        .env("RUST_BACKTRACE", "0")
+                        .output()
+                        .expect("spawn child");
+                    let stdout = String::from_utf8_lossy(&o.stdout).to_string();
+                    let stderr = String::from_utf8_lossy(&o.stderr).to_string();
+                    let mut begun: Option<usize> = None;
+                    let mut hung = false;
+                    let mut next = start;
+                    for line in stdout.lines() {
+                        if let Some(x) = line.strip_prefix("B ") {
+                            begun = x.trim().parse().ok();
+                        } else if let Some(x) = line.strip_prefix("R ") {
+                            let (idx, rest) = x.split_once(' ').unwrap_or((x, ""));
+                            let idx: usize = idx.parse().unwrap_or(usize::MAX);
+                            let (r, d) = rest.split_once('\t').unwrap_or((rest, ""));
+                            res.push((idx, Outcome { result: r.to_string(), detail: d.to_string() }));
+                            begun = None;
+                            next = idx + 1;
+                        } else if line.starts_with("H ") {
+                            hung = true;
                         }
                     }
-                    res.push((i, Outcome { result: how, detail: one_line(&msg) }));
-                    next = i + 1;
-                } else if next < stop && !o.status.success() {
-                    // died between calls: attribute to the next call
-                    res.push((next, Outcome { result: "died-between-calls".into(), detail: one_line(&stderr) }));
-                    next += 1;
-                } else if next < stop {
-                    next = stop;
-                }
-                start = next.max(start + if begun.is_some() { 0 } else { 0 });
-                if next <= start && begun.is_none() && o.status.success() {
-                    start = stop;
-                } else {
+                    if let Some(i) = begun {
+                        // the child died (or was stopped by its watchdog) inside call i
+                        use std::os::unix::process::ExitStatusExt;
+                        let how = if hung {
+                            "hang".to_string()
+                        } else if let Some(sig) = o.status.signal() {
+                            if sig == 6 { "abort".to_string() } else { format!("signal{}", sig) }
+                        } else {
+                            format!("exit{}", o.status.code().unwrap_or(-1))
+                        };
+                        // the panic message printed by the child's hook before the runtime aborted
+                        let mut msg = String::new();
+                        for l in stderr.lines() {
+                            if let Some(m) = l.strip_prefix("C06PANIC ") {
+                                if !m.contains("panic in a function that cannot unwind") {
+                                    msg = m.to_string();
+                                }
+                            }
+                        }
+                        res.push((i, Outcome { result: how, detail: one_line(&msg) }));
+                        next = i + 1;
+                    } else if next < stop {
+                        if o.status.success() {
+                            next = stop;
+                        } else {
+                            // died between calls (e.g. while building the VM): attribute to the next call
+                            res.push((next, Outcome { result: "died-between-calls".into(), detail: one_line(&stderr) }));
+                            next += 1;
+                        }
+                    }
                     start = next;
                 }
             }
@@ -751,18 +763,23 @@ struct Case {
     family: &'static str,
 }
 
-const PRELUDE_OFF_PREFIX: &str = "let c06sp = import! std.string.prim in let c06fp = import! std.float.prim in ";
-
 fn case_src(module: &str, name: &str, args: &[Arg]) -> String {
-    let mut s = String::from(PRELUDE_OFF_PREFIX);
+    let mut s = String::new();
+    let body: Vec<String> = args.iter().map(|a| a.src()).collect();
+    if body.iter().any(|b| b.contains("c06sp.")) {
+        s.push_str("let c06sp = import! std.string.prim in ");
+    }
+    if body.iter().any(|b| b.contains("c06fp.")) {
+        s.push_str("let c06fp = import! std.float.prim in ");
+    }
     s.push_str(&format!("let c06m = import! {} in ", module));
     if let Some(Arg::Buf(content)) = args.iter().find(|a| matches!(a, Arg::Buf(_))) {
         s.push_str(&format!("let c06buf = c06m.new () in let _ = c06m.push_str c06buf {} in ", str_lit(content)));
     }
     s.push_str(&format!("c06m.{}", name));
-    for a in args {
+    for b in body {
         s.push(' ');
-        s.push_str(&a.src());
+        s.push_str(&b);
     }
     s
 }
@@ -800,8 +817,8 @@ fn signatures(table: &gvh::tr::primtable::Table) -> BTreeMap<(String, String), V
 // ------------------------------------------------------------------------------------------
 
 /// (source, expected to succeed)
-fn program_pool() -> Vec<(&'static str, bool)> {
-    vec![
+fn program_pool() -> Vec<(String, bool)> {
+    let v: Vec<(&'static str, bool)> = vec![
         // succeeding
         ("1 #Int+ 2", true),
         ("let f x = x #Int* 2 in f 21", true),
@@ -842,7 +859,75 @@ fn program_pool() -> Vec<(&'static str, bool)> {
         ("let g y = [y, (import! std.array.prim).index [] 0, y] in let r = { h = g } in r.h 1", false),
         ("let rec f x = 1 #Int+ f (x #Int+ 1) in f 0", false),
         ("let a = import! std.array.prim in let rec f x = if x #Int== 0 then a.index [1] 7 else f (x #Int- 1) #Int+ 1 in f 50", false),
-    ]
+    ];
+    v.into_iter().map(|(s, b)| (s.to_string(), b)).collect()
+}
+
+fn read_pool(path: &std::path::Path) -> Vec<(String, bool)> {
+    std::fs::read_to_string(path)
+        .expect("pool file")
+        .lines()
+        .filter_map(|l| l.split_once('\t').map(|(b, s)| (s.to_string(), b == "1")))
+        .collect()
+}
+
+/// Single programs with the class of outcome the property demands (`ret` or `err`): every kind of
+/// result value reaches the host, every kind of front-end failure is an error value.
+fn programs() -> Vec<(String, String, &'static str)> {
+    let mut v: Vec<(String, String, &'static str)> = vec![];
+    let mut add = |label: &str, src: &str, want: &'static str| v.push((label.to_string(), src.to_string(), want));
+    add("value:nan", "0.0 #Float/ 0.0", "ret");
+    add("value:nan", "(import! std.float.prim).nan", "ret");
+    add("value:nan", "(import! std.float.prim).sqrt (-1.0)", "ret");
+    add("value:nan-in-record", "{ x = 0.0 #Float/ 0.0 }", "ret");
+    add("value:infinity", "1.0 #Float/ 0.0", "ret");
+    add("value:neg-zero", "-0.0", "ret");
+    add("value:float", "1.5", "ret");
+    add("value:int-min", "-9223372036854775808", "ret");
+    add("value:closure", "\\x -> x", "ret");
+    add("value:partial-application", "let f x y = x in f 1", "ret");
+    add("value:primitive-function", "(import! std.int.prim).shl", "ret");
+    add("value:empty-array", "[]", "ret");
+    add("value:unit", "()", "ret");
+    add("value:empty-string", "\"\"", "ret");
+    add("value:userdata", "(import! std.effect.st.string.prim).new ()", "ret");
+    add("value:variant", "type T = | A Int | B in A 1", "ret");
+    add("value:nested-array", "[[1.5], []]", "ret");
+    add("lex:invalid-string-escape", "\"\\q\"", "err");
+    add("lex:invalid-string-escape", "\"a\\u{e9}b\"", "err");
+    add("lex:invalid-char-escape", "'\\0'", "err");
+    add("lex:non-ascii-char-literal", "'\u{e9}'", "any");
+    add("lex:non-ascii-outside-string", "\u{e9}", "err");
+    add("lex:non-ascii-outside-string", "1 #Int+ \u{20ac}", "err");
+    add("lex:comment-at-eof", "1 // c", "ret");
+    add("lex:block-comment-unterminated", "1 /* c", "err");
+    add("lex:int-literal-overflow", "99999999999999999999", "err");
+    add("lex:byte-literal-overflow", "256b", "err");
+    add("lex:float-literal-huge", "1.0e999", "any");
+    add("lex:unterminated-string", "\"abc", "err");
+    add("lex:unterminated-char", "'a", "err");
+    add("lex:empty-char", "''", "err");
+    add("lex:raw-string-unterminated", "r#\"abc", "err");
+    add("lex:lone-backslash", "\\", "err");
+    add("lex:nul-byte", "1 \u{0} 2", "err");
+    add("parse:empty", "", "err");
+    add("parse:only-comment", "// nothing", "err");
+    add("parse:unbalanced", "((1)", "err");
+    add("parse:bad-layout", "let x =\n1\n  in x", "any");
+    add("typecheck:occurs", "let f x = x x in f", "err");
+    add("typecheck:missing-field", "{ a = 1 }.b", "err");
+    add("macro:import-missing", "import! std.does.not.exist", "err");
+    add("macro:import-not-ident", "import! 1", "err");
+    add("macro:unknown", "nosuchmacro! 1", "err");
+    for n in [100usize, 1000, 5000] {
+        add(&format!("nesting:parens-{}", n), &format!("{}1{}", "(".repeat(n), ")".repeat(n)), "ret");
+        add(&format!("nesting:infix-chain-{}", n), &format!("1{}", " #Int+ 1".repeat(n)), "ret");
+        add(&format!("nesting:array-{}", n), &format!("{}{}", "[".repeat(n), "]".repeat(n)), "any");
+        add(&format!("nesting:lambda-{}", n), &format!("{}1", "\\x -> ".repeat(n)), "ret");
+        add(&format!("nesting:let-{}", n), &format!("{}x", "let x = 1 in ".repeat(n)), "ret");
+        add(&format!("nesting:app-{}", n), &format!("let f x = x in {}1{}", "f (".repeat(n), ")".repeat(n)), "ret");
+    }
+    v
 }
 
 const PROBE: &str = "let rec sum n = if n #Int== 0 then 0 else n #Int+ sum (n #Int- 1) in { s = sum 100, t = (import! std.string.prim).append \"ok\" \"!\", u = [1, 2, 3] }";
@@ -859,7 +944,7 @@ fn warm_up(vm: &RootedThread) {
         if p.contains("f (x #Int+ 1) in f 0") {
             continue;
         }
-        let _ = eval(vm, p, false);
+        let _ = eval(vm, &p, false);
     }
     let _ = eval(vm, PROBE, false);
     vm.collect();
@@ -872,7 +957,7 @@ fn hist_main(rest: &[String]) {
     let start: usize = rest[1].parse().unwrap();
     let end: usize = rest[2].parse().unwrap();
     let t0 = start_watchdog();
-    let pool = program_pool();
+    let pool = read_pool(&std::path::Path::new(&rest[0]).with_file_name("pool.txt"));
     // result of each program on a FRESH VM (computed once per program, each on its own new VM)
     let mut fresh: BTreeMap<usize, String> = BTreeMap::new();
     let mut fresh_of = |i: usize| -> String {
@@ -881,7 +966,7 @@ fn hist_main(rest: &[String]) {
         }
         let vm = new_vm(false);
         set_stack_limit(&vm, STACK_LIMIT);
-        let r = eval(&vm, pool[i].0, false).0;
+        let r = eval(&vm, &pool[i].0, false).0;
         fresh.insert(i, r.clone());
         r
     };
@@ -930,7 +1015,7 @@ fn hist_main(rest: &[String]) {
         } else {
             for (pos, t) in toks.iter().enumerate() {
                 let i: usize = t.parse().unwrap();
-                let (r, d) = eval(&vm, pool[i].0, false);
+                let (r, d) = eval(&vm, &pool[i].0, false);
                 let f = fresh_of(i);
                 if r != f {
                     verdict = format!("FAIL history step {} program {}: `{}` ({}) on the used VM but `{}` on a fresh VM", pos, i, r, d, f);
@@ -1093,8 +1178,8 @@ fn main() {
     let mut cases: Vec<Case> = vec![];
     let mut sig_lines: Vec<(String, String)> = vec![]; // (model line, impl line)
     let mut uncovered: Vec<String> = vec![];
-    let cap = if thorough { 4000 } else { 340 };
-    let nrand = if thorough { 400 } else { 40 };
+    let cap = if thorough { 2500 } else { 150 };
+    let nrand = if thorough { 300 } else { 24 };
     let mut seen = HashSet::new();
     for e in &table.entries {
         let sig = match sigs.get(&(e.module.clone(), e.name.clone())) {
@@ -1152,7 +1237,7 @@ fn main() {
             writeln!(f, "{}", c.src.replace('\n', " ")).unwrap();
         }
     }
-    let outcomes = run_isolated(&jobfile, cases.len(), false, workers, "child");
+    let outcomes = run_isolated(&jobfile, cases.len(), false, workers, "child", 150);
 
     // ---- OS family + user-facing sample (prelude on, run_io on) ----
     let tmp = "/verif/.cache/c06-tmp";
@@ -1167,10 +1252,58 @@ fn main() {
             writeln!(f, "{}", s.replace('\n', " ")).unwrap();
         }
     }
-    let os_out = run_isolated(&osfile, os.len(), true, workers, "child");
+    let os_out = run_isolated(&osfile, os.len(), true, workers, "child", 40);
+
+    // ---- single programs: every kind of result value / front-end failure ----
+    let progs = programs();
+    let progfile = args.out.join("jobs_prog.txt");
+    {
+        let mut f = std::io::BufWriter::new(std::fs::File::create(&progfile).unwrap());
+        for (_, s, _) in &progs {
+            writeln!(f, "{}", s.replace('\n', " ")).unwrap();
+        }
+    }
+    let prog_out = run_isolated(&progfile, progs.len(), false, workers, "child", 6);
+    {
+        let mut f = args.file("prog_out.txt");
+        for ((label, src, want), o) in progs.iter().zip(prog_out.iter()) {
+            let class = o.result.split(' ').next().unwrap_or("");
+            let ok = match *want {
+                "ret" => class == "ret",
+                "err" => class.starts_with("err"),
+                _ => class == "ret" || class.starts_with("err"),
+            };
+            let shown: String = src.chars().take(120).collect();
+            writeln!(f, "{}\t{}\t{}\t{}\t{}\t{}", if ok { "ok" } else { "FAIL" }, label, want, class, shown.replace('\n', " ").replace('\t', " "), o.detail).unwrap();
+            hist.add(&format!("program:{}", class));
+        }
+        f.flush().unwrap();
+    }
 
     // ---- histories ----
-    let pool = program_pool();
+    // pool = fixed programs + a seeded sample of sweep cases that returned a value / a VM error
+    let mut pool = program_pool();
+    {
+        let want = if thorough { 160 } else { 40 };
+        let cand: Vec<usize> = (0..cases.len())
+            .filter(|i| cases[*i].module != "std.float.prim" && (outcomes[*i].result.starts_with("ret ") || outcomes[*i].result == "err:vm"))
+            .collect();
+        let (mut n_ok, mut n_bad) = (0, 0);
+        let mut tries = 0;
+        while !cand.is_empty() && (n_ok < want / 2 || n_bad < want / 2) && tries < 200000 {
+            tries += 1;
+            let i = *rng.pick(&cand);
+            let good = outcomes[i].result.starts_with("ret ");
+            if good && n_ok < want / 2 {
+                n_ok += 1;
+                pool.push((cases[i].src.clone(), true));
+            } else if !good && n_bad < want / 2 {
+                n_bad += 1;
+                pool.push((cases[i].src.clone(), false));
+            }
+        }
+    }
+    std::fs::write(args.out.join("pool.txt"), pool.iter().map(|(s, b)| format!("{}\t{}\n", if *b { 1 } else { 0 }, s.replace('\n', " "))).collect::<String>()).unwrap();
     let nhist = if thorough { 600 } else { 96 };
     let ok_idx: Vec<usize> = (0..pool.len()).filter(|i| pool[*i].1).collect();
     let bad_idx: Vec<usize> = (0..pool.len()).filter(|i| !pool[*i].1).collect();
@@ -1194,7 +1327,7 @@ fn main() {
     }
     let histfile = args.out.join("jobs_hist.txt");
     std::fs::write(&histfile, hlines.join("\n") + "\n").unwrap();
-    let hist_out = run_isolated(&histfile, hlines.len(), false, workers, "hist");
+    let hist_out = run_isolated(&histfile, hlines.len(), false, workers, "hist", 8);
 
     // ---- write outputs ----
     let mut model_in = args.file("model_in.txt");
@@ -1232,7 +1365,7 @@ fn main() {
     }
     let mut hist_f = args.file("hist_out.txt");
     for (l, o) in hlines.iter().zip(hist_out.iter()) {
-        let progs: Vec<String> = l.split_whitespace().filter_map(|t| t.parse::<usize>().ok()).filter(|i| *i < pool.len() && !l.starts_with('S')).map(|i| pool[i].0.to_string()).collect();
+        let progs: Vec<String> = l.split_whitespace().filter_map(|t| t.parse::<usize>().ok()).filter(|i| *i < pool.len() && !l.starts_with('S')).map(|i| pool[i].0.clone()).collect();
         writeln!(hist_f, "{}\t{}\t{}", o.result, l, progs.join(" ;; ")).unwrap();
         hist.add(if o.result.starts_with("ok") { "history:ok" } else { "history:FAIL" });
         hist.add(&format!("history-len:{}", l.split_whitespace().count()));
@@ -1246,11 +1379,13 @@ fn main() {
     gvh::out::write_json(
         &args.out.join("stats.json"),
         &serde_json::json!({
-            "evaluations": cases.len() + os.len() + hlines.iter().map(|l| l.split_whitespace().count()).sum::<usize>(),
+            "evaluations": cases.len() + os.len() + progs.len() + hlines.iter().map(|l| l.split_whitespace().count()).sum::<usize>(),
             "prim_cases": cases.len(),
             "signatures": sig_lines.len(),
             "os_cases": os.len(),
             "histories": hlines.len(),
+            "programs": progs.len(),
+            "history_pool": pool.len(),
             "distinct_nontrivial": distinct.len(),
             "rule": "one case = (primitive, argument tuple) evaluated as a Gluon program in an isolated child; distinct by (primitive, arguments); every case applies a primitive to at least one argument (none trivial); histories and OS-module probes are counted in evaluations only",
             "primitives_in_table": table.entries.len(),
@@ -1270,7 +1405,7 @@ fn replay(path: &str) {
     std::fs::create_dir_all(&dir).unwrap();
     let job = dir.join("jobs.txt");
     std::fs::write(&job, format!("{}\n", src.replace('\n', " "))).unwrap();
-    let o = run_isolated(&job, 1, prelude, 1, "child");
+    let o = run_isolated(&job, 1, prelude, 1, "child", 1);
     println!("source: {}", src);
     println!("impl: {}  {}", o[0].result, o[0].detail);
     println!("expected(model): {}", v["expected"].as_str().unwrap_or("?"));
